@@ -251,7 +251,18 @@ theorem sparse_map_old_bounds (fixed : Bool) (hdr stream : Bytes) (h : hdr.lengt
     (readGnuOldSparse fixed hdr stream).safe :=
   readGnuOldSparse_safe fixed hdr stream (by simpa [Sqfs.Consts.sizeofTarHeader] using h)
 
+/-- `decode_filename` (sort file) on any NUL-terminated line: every read stops at the terminator and every store
+lands strictly behind the read cursor -/
+theorem decode_filename_bounds (buf : Bytes) (k : Nat) (hk : buf[k]? = some 0) : (decodeFilename buf).safe :=
+  decodeFilename_safe buf k hk
+
+/-- `decode` (xattr map file: `0x…`, `0s…`, quoted text with `\\`, `\"`, octal escapes) on any NUL-terminated value:
+reads stay inside `value[0 .. strlen(value)]`, and at most `strlen(value)` bytes go into the `strlen(value)+1` byte output -/
+theorem xattr_decode_bounds (buf : Bytes) (hne : buf ≠ []) (hlast : buf[buf.length - 1]? = some 0) : (xattrDecode buf).safe :=
+  xattrDecode_safe buf hne hlast
+
 /-! ### non-vacuity -/
+example : xattrDecode [34, 97, 92, 49, 48, 49, 92, 92, 34, 0] = .ok [97, 65, 92] := by decide
 example : readNumber false [48, 48, 48, 49, 50, 51, 52, 0] 0 8 = .ok 668 := by decide
 example : readNumber false [0x80, 0, 0, 0, 0, 0, 1, 0] 0 8 = .ok 256 := by decide
 example : (parseU 10 [49, 50, 51, 44, 0] 0 none true 0 0) = .ok (123, 3) := by decide
